@@ -52,6 +52,52 @@ theorem construct_getElem? (n : Nat) (xs : List Int) (i : Nat) (hi : i < n) :
     have : i - xs.length < n := by omega
     simp [h, this]
 
+/-- filling a zero vector entry by entry -/
+theorem fill_aux (n : Nat) (f : Nat → Int) (m : Nat) (hmn : m ≤ n) :
+    (List.range m).foldl (fun acc i => acc.set i (f i)) (List.replicate n 0)
+      = (List.range m).map f ++ List.replicate (n - m) 0 := by
+  induction m with
+  | zero => simp
+  | succ m ih =>
+    have ih' := ih (by omega)
+    rw [List.range_succ, List.foldl_append, ih']
+    simp only [List.foldl_cons, List.foldl_nil, List.map_append, List.map_cons, List.map_nil]
+    have hlen : ((List.range m).map f).length = m := by simp
+    rw [List.set_append_right _ _ (by omega), hlen, Nat.sub_self]
+    have hrep : List.replicate (n - m) (0 : Int) = 0 :: List.replicate (n - (m + 1)) 0 := by
+      have : n - m = (n - (m + 1)) + 1 := by omega
+      rw [this, List.replicate_succ]
+    rw [hrep, List.set_cons_zero]
+    simp
+
+theorem constructBuf_eq (n : Nat) (mem : List Int) (off stride : Int) (shape : Nat) :
+    constructBuf n mem off stride shape = construct n ((List.range shape).map (bufEntry mem off stride)) := by
+  unfold constructBuf construct
+  rw [fill_aux n _ (min n shape) (Nat.min_le_left _ _)]
+  rw [List.take_append, List.take_replicate, ← List.map_take, List.take_range]
+  simp only [List.length_map, List.length_range]
+  congr 1
+  · congr 1
+    omega
+
+theorem constructBuf_length (n : Nat) (mem : List Int) (off stride : Int) (shape : Nat) :
+    (constructBuf n mem off stride shape).length = n := by
+  rw [constructBuf_eq]; exact construct_length _ _
+
+theorem constructLoop_length (n : Nat) (xs : List Int) : (constructLoop n xs).length = n := by
+  rw [constructLoop_eq]; exact construct_length _ _
+
+theorem map_getD_range (l : List Int) : (List.range l.length).map (fun j => l.getD j 0) = l := by
+  apply List.ext_getElem
+  · simp
+  · intro i h1 h2
+    simp [List.getD_eq_getElem?_getD, List.getElem?_eq_getElem h2]
+
+theorem dynConstructLoop_eq (xs : List Int) : dynConstructLoop xs = xs := by
+  unfold dynConstructLoop
+  rw [fill_aux xs.length (fun i => xs.getD i 0) xs.length (Nat.le_refl _), map_getD_range]
+  simp
+
 /-! ### index normalisation -/
 
 theorem normIndex_nonneg (n : Nat) (i : Int) (h0 : 0 ≤ i) (h1 : i < n) : normIndex n i = some i.toNat := by
@@ -128,12 +174,6 @@ theorem alloc_blocks_length (s : State) (v : List Int) : (s.alloc v).1.blocks.le
 
 theorem fullView_pos (b n p : Nat) : (fullView b n).pos p = p := by
   simp [fullView, View.pos]
-
-theorem map_getD_range (l : List Int) : (List.range l.length).map (fun j => l.getD j 0) = l := by
-  apply List.ext_getElem
-  · simp
-  · intro i h1 h2
-    simp [List.getD_eq_getElem?_getD, List.getElem?_eq_getElem h2]
 
 theorem viewVals_fullView (s : State) (b : Nat) :
     s.viewVals (fullView b (s.read b).length) = s.read b := by
